@@ -633,6 +633,73 @@ func main() {
 		}
 	}
 
+	// --- structural facts the models take for granted --------------------------------------
+	// (a) Handler.ServeHTTP selects the FIRST protocol handler that serves the Content-Type:
+	//     the loop over h.protocolHandlers leaves with `break` inside the matching `if`.
+	{
+		first := 0
+		if fn := p.funcs["Handler.ServeHTTP"]; fn != nil && fn.Body != nil {
+			ast.Inspect(fn.Body, func(n ast.Node) bool {
+				rs, ok := n.(*ast.RangeStmt)
+				if !ok {
+					return true
+				}
+				if sel, ok := rs.X.(*ast.SelectorExpr); !ok || sel.Sel.Name != "protocolHandlers" {
+					return true
+				}
+				for _, st := range rs.Body.List {
+					if ifs, ok := st.(*ast.IfStmt); ok {
+						for _, inner := range ifs.Body.List {
+							if br, ok := inner.(*ast.BranchStmt); ok && br.Tok == token.BREAK {
+								first = 1
+							}
+						}
+					}
+				}
+				return false
+			})
+		} else {
+			miss("func Handler.ServeHTTP")
+		}
+		fmt.Fprintf(&b, "def serveHTTPFirstMatch : Nat := %d\n", first)
+	}
+	// (b) the request-side entry points of duplexHTTPCall start the request before anything
+	//     can make them return: `d.ensureRequestMade()` is a top-level statement that precedes
+	//     every statement containing a `return`. 0 = yes, 2 = no.
+	{
+		var rows []string
+		for _, name := range []string{"duplexHTTPCall.Write", "duplexHTTPCall.CloseWrite"} {
+			fn := p.funcs[name]
+			if fn == nil || fn.Body == nil {
+				miss("func " + name)
+				continue
+			}
+			kind := 2
+			for _, st := range fn.Body.List {
+				if es, ok := st.(*ast.ExprStmt); ok {
+					if call, ok := es.X.(*ast.CallExpr); ok {
+						if sel, ok := call.Fun.(*ast.SelectorExpr); ok && sel.Sel.Name == "ensureRequestMade" {
+							kind = 0
+							break
+						}
+					}
+				}
+				hasReturn := false
+				ast.Inspect(st, func(n ast.Node) bool {
+					if _, ok := n.(*ast.ReturnStmt); ok {
+						hasReturn = true
+					}
+					return !hasReturn
+				})
+				if hasReturn {
+					break
+				}
+			}
+			rows = append(rows, fmt.Sprintf("(%s, %d)", leanStr(name), kind))
+		}
+		fmt.Fprintf(&b, "def requestSideStartsRequest : List (List UInt8 × Nat) := [%s]\n", strings.Join(rows, ", "))
+	}
+
 	b.WriteString("\nend ConnectModel.Gen\n")
 
 	if len(missing) > 0 {
